@@ -199,6 +199,14 @@ func TestVerifC17PadVersions(t *testing.T) {
 				v += "-" + rapid.SampledFrom([]string{"pre.1", "pre.2", "pre.3", "rc.1", "pre.9"}).Draw(t, "preTag")
 				withPre = true
 			}
+			switch rapid.IntRange(0, 11).Draw(t, "spelling") {
+			case 0:
+				v += "+incompatible" // build metadata: a real version is listed as it is spelled
+			case 1:
+				v += "+build.7"
+			case 2:
+				v = v[:strings.LastIndex(strings.SplitN(v, "-", 2)[0], ".")] // shorthand vMAJOR.MINOR
+			}
 			if !seen[v] {
 				seen[v] = true
 				versions = append(versions, v)
